@@ -1752,7 +1752,7 @@ func runC05(c *core.Ctx) {
 	c.Note("exhaustive: indexers of int32, byte array (limits 1, 2), flba5 (limit 2), uuid, float over page lists of <= %d pages from a 3-value domain with null pages; all byte strings over {00,01,fe,ff} up to length %d at limits 1..4", c.N(3, 4), c.N(4, 5))
 
 	// random indexer cases
-	nIdx := c.N(6000, 80000)
+	nIdx := c.N(12000, 80000)
 	for i := 0; i < nIdx; i++ {
 		k := kinds[i%len(kinds)]
 		cs := randIdxCase(c, k)
@@ -1765,7 +1765,7 @@ func runC05(c *core.Ctx) {
 		}
 	}
 	// page and dictionary bounds
-	nB := c.N(4000, 50000)
+	nB := c.N(8000, 50000)
 	for i := 0; i < nB; i++ {
 		k := kinds[i%len(kinds)]
 		dict := i%2 == 1 && canDict(k)
@@ -1777,7 +1777,7 @@ func runC05(c *core.Ctx) {
 		boundsRun(c, cs, fmt.Sprintf("random/bounds/dict=%v", dict))
 	}
 	// files
-	nFiles := c.N(260, 3000)
+	nFiles := c.N(450, 3000)
 	copiedChunks := parquet.VerifCopyPathCount()
 	for i := 0; i < nFiles; i++ {
 		fc := randFileCase(c, i)
